@@ -163,14 +163,16 @@ def run(ctx):
   res2, cases2 = explore("stray", TAG_ALPHABET, TIMINGS_TAGS, MaxCues=1, MaxToks=3, MaxLinesPerCue=2, MaxBlankRun=1,
                          AllowStray="TRUE")
   ctx.tlc(res2, "design only: stray closing tags, 2 lines, blank runs")
-  res3, cases3 = explore("file", [S.t_txt("x"), S.t_open("i")], TIMINGS_FILE, MaxCues=3 if thorough else 2, MaxToks=2,
-                         MaxLinesPerCue=2, MaxBlankRun=2, AllowStray="FALSE")
-  ctx.tlc(res3, f"exhaustive line machine, <= {3 if thorough else 2} cues ({len(cases3)} files)")
-  ctx.count("line_sequences", len(cases3))
-  for hist in cases3:
-    opts = {"eol": rng.choice(["\n", "\r\n"]), "syntax": "mixed", "final_eol": rng.random() < 0.7, "io": rng.choice(["raw", "text"])}
-    text = S.render_srt(hist, rng, opts["eol"], "mixed", opts["final_eol"])
-    record(recs, meta, "file_exhaustive", text, opts, [rng.choice(FPS_LIST)])
+  file_cfgs = [("file2", [S.t_txt("x"), S.t_open("i")], 2)] + ([("file3", [S.t_txt("x")], 3)] if thorough else [])
+  for name, alphabet, maxcues in file_cfgs:
+    res3, cases3 = explore(name, alphabet, TIMINGS_FILE, MaxCues=maxcues, MaxToks=2, MaxLinesPerCue=2, MaxBlankRun=2,
+                           AllowStray="FALSE")
+    ctx.tlc(res3, f"exhaustive line machine '{name}', <= {maxcues} cues ({len(cases3)} files)")
+    ctx.count("line_sequences_" + name, len(cases3))
+    for hist in cases3:
+      opts = {"eol": rng.choice(["\n", "\r\n"]), "syntax": "mixed", "final_eol": rng.random() < 0.7, "io": rng.choice(["raw", "text"])}
+      text = S.render_srt(hist, rng, opts["eol"], "mixed", opts["final_eol"])
+      record(recs, meta, "file_exhaustive", text, opts, [rng.choice(FPS_LIST)])
 
   # 2. seeded random files ---------------------------------------------------------------------------------------
   for _ in range(6000 if thorough else 700):
